@@ -41,8 +41,13 @@ package conversion
 //@ func convertFrom(v reflect.Value, w reflect.Value) (err error)
 //@   tags C20
 //@   requires allocated(rroot(v)) && allocated(rroot(w)) && rroot(v) != rroot(w)
-//@   modifies allof(rfrom), allof(rval), allof(rlen), allof(rcap), allof(rnil)
+//@   modifies allof(rfrom), allof(rval), allof(rlen), allof(rcap), allof(rnil), allof(rfailed)
 //@   ghost_at_return rbase(v).rfrom := ite(err == nil, rbase(w), rbase(v).rfrom)
+//@   ghost_at_return rbase(v).rfailed := rbase(v).rfailed || err != nil
+//@   ensures[C20] err != nil ==> rbase(v).rfailed
+//@   ensures[C20] err == nil ==> (rbase(v).rfailed ==> old(rbase(v).rfailed))
+//@   ensures[C20] forall t reflect.Value {t.rfailed} :: old(t.rfailed) ==> t.rfailed
+//@   ensures[C20] forall t reflect.Value {t.rfailed} :: old(allocated(rroot(t))) && !within(t, v) ==> t.rfailed == old(t.rfailed)
 //@   ensures[C20] err == nil ==> rbase(v).rfrom == rbase(w)
 //@   ensures[C20] forall t reflect.Value {t.rfrom} :: old(allocated(rroot(t))) && !within(t, v) ==> t.rfrom == old(t.rfrom)
 //@   ensures[C20] forall t reflect.Value {t.rval} :: old(allocated(rroot(t))) && !within(t, v) ==> t.rval == old(t.rval)
@@ -72,10 +77,13 @@ package conversion
 //@   tags C20
 //@   requires allocated(rroot(v)) && allocated(rroot(w)) && rroot(v) != rroot(w)
 //@   requires rkind(v) == 23 && rkind(w) != 22
-//@   modifies allof(rfrom), allof(rval), allof(rlen), allof(rcap), allof(rnil)
+//@   modifies allof(rfrom), allof(rval), allof(rlen), allof(rcap), allof(rnil), allof(rfailed)
 //@   ensures[C20] forall t reflect.Value {t.rfrom} :: old(allocated(rroot(t))) && !within(t, v) ==> t.rfrom == old(t.rfrom)
 //@   ensures[C20] forall t reflect.Value {t.rval} :: old(allocated(rroot(t))) && !within(t, v) ==> t.rval == old(t.rval)
 //@   ensures[C20] forall t reflect.Value {t.rlen} :: old(allocated(rroot(t))) && !within(t, v) ==> t.rlen == old(t.rlen)
+//@   ensures[C20] forall t reflect.Value {t.rfailed} :: old(t.rfailed) ==> t.rfailed
+//@   ensures[C20] forall t reflect.Value {t.rfailed} :: old(allocated(rroot(t))) && !within(t, v) ==> t.rfailed == old(t.rfailed)
+//@   ensures[C20] v.rfailed ==> old(v.rfailed)
 //@   ensures[C20] err == nil ==> rkind(w) == 23 && v.rlen == old(w.rlen) && forall i int {ridx(v, i)} :: 0 <= i && i < v.rlen ==> rbase(ridx(v, i)).rfrom == rbase(ridx(w, i))
 //@   loop 1:
 //@     invariant 0 <= i && i <= l && l == old(w.rlen) && w.rlen == l && v.rlen == l && rkind(w) == 23
@@ -83,15 +91,21 @@ package conversion
 //@     invariant forall t reflect.Value {t.rfrom} :: old(allocated(rroot(t))) && !within(t, v) ==> t.rfrom == old(t.rfrom)
 //@     invariant forall t reflect.Value {t.rval} :: old(allocated(rroot(t))) && !within(t, v) ==> t.rval == old(t.rval)
 //@     invariant forall t reflect.Value {t.rlen} :: old(allocated(rroot(t))) && !within(t, v) ==> t.rlen == old(t.rlen)
+//@     invariant forall t reflect.Value {t.rfailed} :: old(t.rfailed) ==> t.rfailed
+//@     invariant v.rfailed ==> old(v.rfailed)
+//@     invariant forall t reflect.Value {t.rfailed} :: old(allocated(rroot(t))) && !within(t, v) ==> t.rfailed == old(t.rfailed)
 
 //@ func convertMap(v reflect.Value, w reflect.Value) (err error)
 //@   tags C20
 //@   requires allocated(rroot(v)) && allocated(rroot(w)) && rroot(v) != rroot(w)
 //@   requires rkind(v) == 21 && rkind(w) != 22
-//@   modifies allof(rfrom), allof(rval), allof(rlen), allof(rcap), allof(rnil)
+//@   modifies allof(rfrom), allof(rval), allof(rlen), allof(rcap), allof(rnil), allof(rfailed)
 //@   ensures[C20] forall t reflect.Value {t.rfrom} :: old(allocated(rroot(t))) && !within(t, v) ==> t.rfrom == old(t.rfrom)
 //@   ensures[C20] forall t reflect.Value {t.rval} :: old(allocated(rroot(t))) && !within(t, v) ==> t.rval == old(t.rval)
 //@   ensures[C20] forall t reflect.Value {t.rlen} :: old(allocated(rroot(t))) && !within(t, v) ==> t.rlen == old(t.rlen)
+//@   ensures[C20] forall t reflect.Value {t.rfailed} :: old(t.rfailed) ==> t.rfailed
+//@   ensures[C20] forall t reflect.Value {t.rfailed} :: old(allocated(rroot(t))) && !within(t, v) ==> t.rfailed == old(t.rfailed)
+//@   ensures[C20] v.rfailed ==> old(v.rfailed)
 //@   ensures[C20] err == nil ==> rkind(w) == 21
 //@   call SetMapIndex#1: assert[C20] recv == v && arg0 == relem(key) && arg1 == relem(el)
 //@   call SetMapIndex#1: assert[C20] iterfresh(rroot(arg0)) && iterfresh(rroot(arg1))
@@ -101,26 +115,42 @@ package conversion
 //@     invariant forall t reflect.Value {t.rfrom} :: old(allocated(rroot(t))) && !within(t, v) ==> t.rfrom == old(t.rfrom)
 //@     invariant forall t reflect.Value {t.rval} :: old(allocated(rroot(t))) && !within(t, v) ==> t.rval == old(t.rval)
 //@     invariant forall t reflect.Value {t.rlen} :: old(allocated(rroot(t))) && !within(t, v) ==> t.rlen == old(t.rlen)
+//@     invariant forall t reflect.Value {t.rfailed} :: old(t.rfailed) ==> t.rfailed
+//@     invariant v.rfailed ==> old(v.rfailed)
+//@     invariant forall t reflect.Value {t.rfailed} :: old(allocated(rroot(t))) && !within(t, v) ==> t.rfailed == old(t.rfailed)
 
 //@ func convertStruct(v reflect.Value, w reflect.Value) (err error)
 //@   tags C20
 //@   requires allocated(rroot(v)) && allocated(rroot(w)) && rroot(v) != rroot(w)
 //@   requires rkind(v) == 25 && rkind(w) != 22
-//@   modifies allof(rfrom), allof(rval), allof(rlen), allof(rcap), allof(rnil)
+//@   modifies allof(rfrom), allof(rval), allof(rlen), allof(rcap), allof(rnil), allof(rfailed)
 //@   ensures[C20] forall t reflect.Value {t.rfrom} :: old(allocated(rroot(t))) && !within(t, v) ==> t.rfrom == old(t.rfrom)
 //@   ensures[C20] forall t reflect.Value {t.rval} :: old(allocated(rroot(t))) && !within(t, v) ==> t.rval == old(t.rval)
 //@   ensures[C20] forall t reflect.Value {t.rlen} :: old(allocated(rroot(t))) && !within(t, v) ==> t.rlen == old(t.rlen)
+//@   ensures[C20] v.rfailed ==> old(v.rfailed)
 //@   ensures[C20] err == nil ==> rkind(w) == 25
+// a field whose conversion is refused in this call refuses the struct
+//@   ensures[C20] err == nil ==> forall k int {rfield(v, k)} :: 0 <= k && k < rnfield(v) ==> (rbase(rfield(v, k)).rfailed ==> old(rbase(rfield(v, k)).rfailed))
+//@   ensures[C20] forall t reflect.Value {t.rfailed} :: old(t.rfailed) ==> t.rfailed
+//@   ensures[C20] forall t reflect.Value {t.rfailed} :: old(allocated(rroot(t))) && !within(t, v) ==> t.rfailed == old(t.rfailed)
 //@   call convertFrom#1: assert[C20] arg0 == rfield(v, i) && arg1 == rfield(w, j)
 //@   call convertFrom#1: assert[C20] name == tolower(StructField_Name(tfield(rtype(v), i))) && name == tolower(StructField_Name(tfield(rtype(w), j)))
 //@   call convertFrom#1: assert[C20] forall j2 int {tfield(rtype(w), j2)} :: 0 <= j2 && j2 < j ==> name != tolower(StructField_Name(tfield(rtype(w), j2)))
 //@   loop 1:
 //@     invariant 0 <= i && rkind(w) == 25
+//@     invariant forall t reflect.Value {t.rfailed} :: old(t.rfailed) ==> t.rfailed
+//@     invariant v.rfailed ==> old(v.rfailed)
+//@     invariant forall t reflect.Value {t.rfailed} :: old(allocated(rroot(t))) && !within(t, v) ==> t.rfailed == old(t.rfailed)
+//@     invariant forall k int {rfield(v, k)} :: 0 <= k && k < rnfield(v) ==> (rbase(rfield(v, k)).rfailed ==> old(rbase(rfield(v, k)).rfailed))
 //@     invariant forall t reflect.Value {t.rfrom} :: old(allocated(rroot(t))) && !within(t, v) ==> t.rfrom == old(t.rfrom)
 //@     invariant forall t reflect.Value {t.rval} :: old(allocated(rroot(t))) && !within(t, v) ==> t.rval == old(t.rval)
 //@     invariant forall t reflect.Value {t.rlen} :: old(allocated(rroot(t))) && !within(t, v) ==> t.rlen == old(t.rlen)
 //@   loop 2:
 //@     invariant 0 <= i && i < rnfield(v) && 0 <= j && rkind(w) == 25 && name == tolower(StructField_Name(tfield(rtype(v), i)))
+//@     invariant forall t reflect.Value {t.rfailed} :: old(t.rfailed) ==> t.rfailed
+//@     invariant v.rfailed ==> old(v.rfailed)
+//@     invariant forall t reflect.Value {t.rfailed} :: old(allocated(rroot(t))) && !within(t, v) ==> t.rfailed == old(t.rfailed)
+//@     invariant forall k int {rfield(v, k)} :: 0 <= k && k < rnfield(v) ==> (rbase(rfield(v, k)).rfailed ==> old(rbase(rfield(v, k)).rfailed))
 //@     invariant forall j2 int {tfield(rtype(w), j2)} :: 0 <= j2 && j2 < j ==> name != tolower(StructField_Name(tfield(rtype(w), j2)))
 //@     invariant forall t reflect.Value {t.rfrom} :: old(allocated(rroot(t))) && !within(t, v) ==> t.rfrom == old(t.rfrom)
 //@     invariant forall t reflect.Value {t.rval} :: old(allocated(rroot(t))) && !within(t, v) ==> t.rval == old(t.rval)
